@@ -279,11 +279,23 @@ var eightChar = ev.Register(&ev.P[momentCase]{
 	Rule: "generated moments x sect {1,2}; oracle: every derived attribute of each pillar equals the value recomputed from that pillar's own string through the exported tables (five elements, nayin, hidden stems, ten-gods of stem and hidden stems relative to the day stem of the current sect, xun, empty branches), and life stage / TaiXi / TaiYuan / MingGong / ShenGong are functions of their defining inputs over the whole run (two charts with the same inputs report the same value; a twin chart is built for every 23:xx moment: noon of the day whose pillar the sect selects); non-trivial: 23:xx (the sects select different day pillars)",
 	Check: func(c momentCase) error {
 		t := c.T
+		var checkOn func(ec *calendar.EightChar, t ref.DT, sect int) error
 		check := func(t ref.DT, sect int) error {
-			l := gen.Solar(t).GetLunar()
-			ec := l.GetEightChar()
-			ec.SetSect(sect)
+			ec := gen.Solar(t).GetLunar().GetEightChar()
 			defer ec.SetSect(2)
+			// the same object is switched between the conventions: nothing may survive from the previous one
+			for _, sc := range []int{sect, 3 - sect, sect} {
+				if err := checkOn(ec, t, sc); err != nil {
+					return err
+				}
+			}
+			return nil
+		}
+		checkOn = func(ec *calendar.EightChar, t ref.DT, sect int) error {
+			ec.SetSect(sect)
+			if ec.GetSect() != sect {
+				return fmt.Errorf("%v: SetSect(%d) then GetSect() = %d", t, sect, ec.GetSect())
+			}
 			w := fmt.Sprintf("%v/sect%d", t, sect)
 			dayGan := ec.GetDayGan()
 			type pl struct {
